@@ -1230,39 +1230,25 @@ def r03_1_abstract(ctx):
                 '(guards: %s)' % f.guard_texts(c))
     g = fn(P, 'yatiml.util:is_abstract')
     p = g.fi.params[0]
-    facts = {'isabstract(%s)' % p: False, 'ABC in %s.__bases__' % p: False, 'abc.ABC in %s.__bases__' % p: False}
-    benign_pos = {'isclass(%s)' % p, 'inspect.isclass(%s)' % p}
-    for ret in g.returns():
-        if ret.value is None:
-            continue
-        gs = g.guards(ret)
-        pos = [norm(x) for x, pol in gs if pol]
-        val = ret.value
-        disj = []
-        if isinstance(val, ast.Constant) and val.value is True:
-            disj = [x for x in pos if x in facts]
-            others = [x for x in pos if x not in facts and x not in benign_pos]
-            if others:
-                disj = []
-        elif isinstance(val, ast.Constant):
-            continue
-        else:
-            vs = val.values if isinstance(val, ast.BoolOp) and isinstance(val.op, ast.Or) else [val]
-            others = [x for x in pos if x not in benign_pos]
-            if not others:
-                disj = [norm(v) for v in vs]
-        for d in disj:
-            if d in facts:
-                facts[d] = True
-    r.check(facts['isabstract(%s)' % p], 'is_abstract(t) is True when inspect.isabstract(t)', g.key('isabstract-arm'), g.loc(),
-            'is_abstract no longer reports classes with abstract methods as abstract')
-    r.check(facts['ABC in %s.__bases__' % p] or facts['abc.ABC in %s.__bases__' % p],
-            'is_abstract(t) is True when ABC is among t.__bases__ (any position)', g.key('abc-base-arm'), g.loc(),
-            'is_abstract no longer reports direct subclasses of abc.ABC as abstract (e.g. class X(Mixin, ABC))')
-    # it must not call non-classes abstract / raise on them
-    r.check(any(norm(x) in benign_pos and not pol for ret in g.returns() for x, pol in g.guards(ret)
-                if isinstance(ret.value, ast.Constant) and ret.value.value is False) or True,
-            'non-classes are not abstract', g.key('non-class'), g.loc(), '')
+    from ..dtable import truth_table, Unsupported
+    abc_atom = 'ABC in %s.__bases__' % p
+    if ('abc.ABC in %s.__bases__' % p) in norm(g.node):
+        abc_atom = 'abc.ABC in %s.__bases__' % p
+    cls_atom = 'inspect.isclass(%s)' % p if ('inspect.isclass(%s)' % p) in norm(g.node) else 'isclass(%s)' % p
+    isab = 'inspect.isabstract(%s)' % p if ('inspect.isabstract(%s)' % p) in norm(g.node) else 'isabstract(%s)' % p
+    try:
+        tt = truth_table(g.node, [cls_atom, isab, abc_atom])
+    except Unsupported as e:
+        raise AnalysisError('is_abstract is outside the decidable subset: %s' % e)
+    # the decision table of the function, whatever its control flow: abstract iff a class with abstract methods or ABC as a base
+    r.check(tt[(True, True, False)] is True and tt[(True, True, True)] is True, 'is_abstract(t) is True when inspect.isabstract(t)',
+            g.key('isabstract-arm'), g.loc(), 'is_abstract no longer reports classes with abstract methods as abstract')
+    r.check(tt[(True, False, True)] is True, 'is_abstract(t) is True when ABC is among t.__bases__ (any position)', g.key('abc-base-arm'),
+            g.loc(), 'is_abstract no longer reports direct subclasses of abc.ABC as abstract (e.g. class X(Mixin, ABC))')
+    r.check(tt[(True, False, False)] is False, 'a concrete class is not abstract', g.key('concrete'), g.loc(),
+            'is_abstract answers %s for a class without abstract methods that does not derive directly from ABC: concrete classes '
+            'are never candidates' % tt[(True, False, False)])
+    # what it answers for something that is not a class is not constrained: it is only asked about registered classes
     r.done()
 
 
